@@ -116,19 +116,107 @@ theorem parseParts_proj (specs : List Spec) (pa pb : Parser) (s : Proj) :
     | ok s' => simp [ih (mpParser pa sp) (mpParser pb sp) s']
     | error e => simp
 
+theorem execSpecs_noErr (specs : List Spec) (h : ∀ sp ∈ specs, isErr sp = false) : execSpecs specs = specs := by
+  induction specs with
+  | nil => rfl
+  | cons sp rest ih =>
+    unfold execSpecs
+    rw [h sp (by simp)]
+    simp [ih (fun x hx => h x (by simp [hx]))]
+
+/-- `Parse` accepts an expression iff no part is rejected. -/
+theorem parseParts_result (specs : List Spec) (pa : Parser) (s : Proj) :
+    (specs.any isErr = true → ∃ e, (parseParts pa s specs).2 = .error e) ∧
+    (specs.any isErr = false → ∃ s', (parseParts pa s specs).2 = .ok s') := by
+  induction specs generalizing pa s with
+  | nil => exact ⟨by simp, fun _ => ⟨s, rfl⟩⟩
+  | cons sp rest ih =>
+    unfold parseParts
+    rw [makeProjection_eq]
+    cases he : isErr sp with
+    | true =>
+      obtain ⟨e, hh⟩ := mpProj_err s sp he
+      exact ⟨fun _ => ⟨e, by simp [hh]⟩, by simp [he]⟩
+    | false =>
+      obtain ⟨s', hh⟩ := mpProj_ok s sp he
+      simp only [hh, List.any_cons, he, Bool.false_or]
+      exact ih (mpParser pa sp) s'
+
+/-- The parts whose parser side effects SURVIVE a `Parse` call: all of them when the expression is
+accepted, none when any part is rejected (the parser state is restored). -/
+def effSpecs (specs : List Spec) : List Spec := if specs.any isErr then [] else specs
+
+theorem effSpecs_noErr (specs : List Spec) (h : ∀ sp ∈ specs, isErr sp = false) : effSpecs specs = specs := by
+  unfold effSpecs
+  have : specs.any isErr = false := by
+    rw [List.any_eq_false]; intro x hx; rw [h x hx]; simp
+  simp [this]
+
+/-- The parser after `Parse` of an expression. -/
+theorem parse_parser (pa : Parser) (specs : List Spec) :
+    (pa.parse specs).1 = (effSpecs specs).foldl mpParser pa := by
+  unfold Parser.parse effSpecs
+  have hp := parseParts_parser specs pa newProjection
+  obtain ⟨r1, r2⟩ := parseParts_result specs pa newProjection
+  cases ha : specs.any isErr with
+  | true =>
+    obtain ⟨e, he⟩ := r1 ha
+    cases hh : parseParts pa newProjection specs with
+    | mk p1 res =>
+      rw [hh] at he
+      simp only at he
+      subst he
+      simp
+  | false =>
+    obtain ⟨s', hs⟩ := r2 ha
+    cases hh : parseParts pa newProjection specs with
+    | mk p1 res =>
+      rw [hh] at hs hp
+      simp only at hs hp
+      subst hs
+      simp only [Bool.false_eq_true, if_false]
+      rw [hp, execSpecs_noErr]
+      intro sp hsp
+      have := List.any_eq_false.mp ha sp hsp
+      simpa using this
+
+/-- **A rejected `Parse` call leaves the parser state unchanged** (and yields no projection). -/
+theorem parse_rejected (pa : Parser) (specs : List Spec) (h : specs.any isErr = true) :
+    (pa.parse specs).1 = pa ∧ ∃ e, (pa.parse specs).2 = .error e := by
+  refine ⟨by rw [parse_parser]; simp [effSpecs, h], ?_⟩
+  obtain ⟨e, he⟩ := (parseParts_result specs pa newProjection).1 h
+  unfold Parser.parse
+  cases hh : parseParts pa newProjection specs with
+  | mk p1 res =>
+    rw [hh] at he
+    simp only at he
+    subst he
+    exact ⟨e, rfl⟩
+
+theorem parse_proj (pa pb : Parser) (specs : List Spec) : (pa.parse specs).2 = (pb.parse specs).2 := by
+  have := parseParts_proj specs pa pb newProjection
+  unfold Parser.parse
+  cases h1 : parseParts pa newProjection specs with
+  | mk p1 r1 =>
+    cases h2 : parseParts pb newProjection specs with
+    | mk p2 r2 =>
+      rw [h1, h2] at this
+      simp only at this
+      subst this
+      cases r1 <;> rfl
+
 /-- One `Parse` / `ParseWithUnit` call of a parser. -/
 def parseExpr (pa : Parser) (e : Bool × List Spec) : Parser × Except ParseErr Proj :=
   if e.1 then pa.parseWithUnit e.2 else pa.parse e.2
 
 theorem parseExpr_parser (pa : Parser) (e : Bool × List Spec) :
-    (parseExpr pa e).1 = (execSpecs e.2).foldl mpParser pa := by
+    (parseExpr pa e).1 = (effSpecs e.2).foldl mpParser pa := by
   unfold parseExpr
   cases e.1
-  · simp only [Bool.false_eq_true, if_false, Parser.parse]; exact parseParts_parser _ _ _
+  · simp only [Bool.false_eq_true, if_false]; exact parse_parser _ _
   · simp only [if_true, Parser.parseWithUnit]
-    have := parseParts_parser e.2 pa newProjection
-    unfold Parser.parse
-    cases hh : parseParts pa newProjection e.2 with
+    have := parse_parser pa e.2
+    cases hh : pa.parse e.2 with
     | mk p1 r =>
       rw [hh] at this
       cases r <;> simpa using this
@@ -136,13 +224,13 @@ theorem parseExpr_parser (pa : Parser) (e : Bool × List Spec) :
 theorem parseExpr_proj (pa pb : Parser) (e : Bool × List Spec) :
     (parseExpr pa e).2 = (parseExpr pb e).2 := by
   unfold parseExpr
-  have := parseParts_proj e.2 pa pb newProjection
+  have := parse_proj pa pb e.2
   cases e.1
-  · simpa [Parser.parse] using this
-  · simp only [if_true, Parser.parseWithUnit, Parser.parse]
-    cases h1 : parseParts pa newProjection e.2 with
+  · simpa using this
+  · simp only [if_true, Parser.parseWithUnit]
+    cases h1 : pa.parse e.2 with
     | mk p1 r1 =>
-      cases h2 : parseParts pb newProjection e.2 with
+      cases h2 : pb.parse e.2 with
       | mk p2 r2 =>
         rw [h1, h2] at this
         simp only at this
@@ -154,7 +242,7 @@ def parserAfter (pa : Parser) (es : List (Bool × List Spec)) : Parser :=
   es.foldl (fun pa e => (parseExpr pa e).1) pa
 
 theorem parserAfter_eq (es : List (Bool × List Spec)) (pa : Parser) :
-    parserAfter pa es = (es.flatMap fun e => execSpecs e.2).foldl mpParser pa := by
+    parserAfter pa es = (es.flatMap fun e => effSpecs e.2).foldl mpParser pa := by
   unfold parserAfter
   induction es generalizing pa with
   | nil => rfl
@@ -259,10 +347,10 @@ def envOf (pa : Parser) : Env :=
 
 theorem parserAfter_obs (pa : Parser) (es : List (Bool × List Spec)) :
     (∀ k, k ∈ (parserAfter pa es).configKeys ↔
-      k ∈ pa.configKeys ∨ ∃ sp ∈ es.flatMap (fun e => execSpecs e.2), cfgKeyOf sp = some k) ∧
-    (parserAfter pa es).fullnameKeys = pa.fullnameKeys ++ (es.flatMap fun e => execSpecs e.2).flatMap nameKeyOf ∧
-    (parserAfter pa es).haveConfig = (pa.haveConfig || (es.flatMap fun e => execSpecs e.2).any hcOf) ∧
-    (parserAfter pa es).haveFullname = (pa.haveFullname || (es.flatMap fun e => execSpecs e.2).any hfOf) ∧
+      k ∈ pa.configKeys ∨ ∃ sp ∈ es.flatMap (fun e => effSpecs e.2), cfgKeyOf sp = some k) ∧
+    (parserAfter pa es).fullnameKeys = pa.fullnameKeys ++ (es.flatMap fun e => effSpecs e.2).flatMap nameKeyOf ∧
+    (parserAfter pa es).haveConfig = (pa.haveConfig || (es.flatMap fun e => effSpecs e.2).any hcOf) ∧
+    (parserAfter pa es).haveFullname = (pa.haveFullname || (es.flatMap fun e => effSpecs e.2).any hfOf) ∧
     (parserAfter pa es).fullExt = pa.fullExt := by
   rw [parserAfter_eq]
   exact foldl_mpParser_obs _ pa
@@ -274,7 +362,7 @@ theorem parserAfter_perm (pa : Parser) (hfresh : pa.fullExt = none) (es es' : Li
     (parserAfter pa es).haveFullname = (parserAfter pa es').haveFullname := by
   obtain ⟨a1, a2, a3, a4, a5⟩ := parserAfter_obs pa es
   obtain ⟨b1, b2, b3, b4, b5⟩ := parserAfter_obs pa es'
-  have hl := List.Perm.flatMap_right (fun e : Bool × List Spec => execSpecs e.2) hp
+  have hl := List.Perm.flatMap_right (fun e : Bool × List Spec => effSpecs e.2) hp
   refine ⟨⟨?_, ?_⟩, ?_, ?_⟩
   · intro k
     simp only [envOf]
